@@ -71,6 +71,10 @@ TARGETS = [
      {'variant': 'B', 'lean_name': 'VbsWriterB_close',
       'spec': {'fields': [('_finalised', 'bool')],
                'wrapped': ('out_file', 'Block1014', 'F', [('w_remaining_chars', 'int'), ('w_fdata', 'bytes'), ('w_fpos', 'int')])}}),
+    ('cardutil/mciipm.py', 'VbsWriter.__exit__', {'exc_type': 'none', 'exc_val': 'none', 'exc_tb': 'none'}, None,
+     {'variant': 'B', 'lean_name': 'VbsWriterB_exit',
+      'spec': {'fields': [('_finalised', 'bool')],
+               'wrapped': ('out_file', 'Block1014', 'F', [('w_remaining_chars', 'int'), ('w_fdata', 'bytes'), ('w_fpos', 'int')])}}),
     # the BLOCKED reader: VbsReader whose `vbs_data` is an Unblock1014 object (`self.vbs_data.read(n)` is the translated
     # Unblock1014.read on the wrapped object's part of the state)
     ('cardutil/mciipm.py', 'VbsReader.__next__', {}, 'bytes',
